@@ -160,8 +160,11 @@ def multiprocessing_run(
                     input_data = input_data.split(':;:')
                     input_data[1] = float(input_data[1])
                     input_data[2] = float(input_data[2])
-                    input_data[4] = [float(i.strip()) for i in
-                                     input_data[4].replace('[', '').replace(']', '').split(',') if i != '']
+                    # `must_include` may have been given as a list or as a tuple.
+                    must_include_str = input_data[4]
+                    for bracket in ('[', ']', '(', ')'):
+                        must_include_str = must_include_str.replace(bracket, '')
+                    input_data[4] = [float(i.strip()) for i in must_include_str.split(',') if i.strip() != '']
                     input_data[5] = int(input_data[5])
                     input_data = tuple([input_name] + input_data)
                     input_tuple = MultiprocessingInput(*input_data)
